@@ -29,17 +29,20 @@ type Server struct {
 	// every later command neither (mode "dead": the database is gone until Revive)
 	failAt   int
 	failMode string
+	failName string
+	failColl string
+	failOcc  int
 	dead     bool
 	ncmd     int
 	lastCmd  time.Time
 	// Gate, when set, is called (without the lock) before a data command takes effect; it may block.
-	Gate  func(name, coll string)
+	Gate func(name, coll string)
 	// After, when set, is called (without the lock) after a data command took effect and before its answer is sent
 	After func(name, coll string)
 	// OnWrite, if set, is called under the store's mutex for every document an insert stored and every document an
 	// update or replacement produced: the order of the calls is the order in which the store applied the writes
 	OnWrite func(op, ns string, doc bson.D)
-	conns map[net.Conn]bool
+	conns   map[net.Conn]bool
 }
 
 // IsData tells whether a command counts as a database command of a request (not handshake / housekeeping).
@@ -58,12 +61,20 @@ func (s *Server) FailAt(k int, mode string) {
 	s.mu.Unlock()
 }
 
+// FailNamed arms the fault plan by name: the occ-th data command `name` on collection `coll` from now fails in
+// the given mode, wherever it stands among the other commands of the request.
+func (s *Server) FailNamed(name, coll string, occ int, mode string) {
+	s.mu.Lock()
+	s.failName, s.failColl, s.failOcc, s.failMode, s.ncmd, s.failAt = name, coll, occ, mode, 0, 0
+	s.mu.Unlock()
+}
+
 // Disarm clears the fault plan and returns how many data commands were counted since FailAt.
 func (s *Server) Disarm() int {
 	s.mu.Lock()
 	defer s.mu.Unlock()
 	n := s.ncmd
-	s.failAt, s.failMode = 0, ""
+	s.failAt, s.failMode, s.failOcc, s.failName, s.failColl = 0, "", 0, "", ""
 	return n
 }
 
@@ -406,7 +417,12 @@ func (s *Server) handle(db string, cmd bson.D, seqs map[string][]bson.D) bson.D 
 			return errDead
 		}
 		s.ncmd++
-		if s.failAt > 0 && s.ncmd == s.failAt {
+		named := false
+		if s.failOcc > 0 && name == s.failName && coll == s.failColl {
+			s.failOcc--
+			named = s.failOcc == 0
+		}
+		if named || (s.failAt > 0 && s.ncmd == s.failAt) {
 			if s.failMode == "dead" {
 				s.dead = true
 				s.Log = append(s.Log, fmt.Sprintf("DEAD %s %s", name, ns))
